@@ -139,3 +139,30 @@ def _(u):
         return AND(state_ok(u, td, B, D, H), u.forall((B,), lambda b: AND(a.at(b) >= 0, a.at(b) < M)))
 
     rowlocal(u, "step", lambda u, B: state(u, B, D, H), lambda u, td: u.run(F, "MDCPDPEnv._step", td, selfobj=env), requires=req, tags=("C04", "C03", "C14"))
+
+
+def _rowlocal_reward(u, mode):
+    D, H, T = u.dims("D H T")
+    env = _env(u, reward=mode)
+
+    def mk_in(u, B):
+        td = state(u, B, D, H)
+        return {"td": td, "actions": u.tensor("actions", (B, T), "i")}
+
+    rowlocal(u, "reward", mk_in, lambda u, ins: u.run(F, "MDCPDPEnv._get_reward", ins["td"], ins["actions"], selfobj=env),
+             requires=lambda u, ins, B: u.forall((B,), lambda b: AND(ins["td"]["current_depot"].at(b, 0) >= 0, ins["td"]["current_depot"].at(b, 0) < D)))
+
+
+@unit("mdcpdp.rowlocal.reward.minsum", file=F, func="MDCPDPEnv._get_reward", props=("C04", "C14"))
+def _(u):
+    _rowlocal_reward(u, "minsum")
+
+
+@unit("mdcpdp.rowlocal.reward.minmax", file=F, func="MDCPDPEnv._get_reward", props=("C04", "C14"))
+def _(u):
+    _rowlocal_reward(u, "minmax")
+
+
+@unit("mdcpdp.rowlocal.reward.lateness", file=F, func="MDCPDPEnv._get_reward", props=("C04", "C14"))
+def _(u):
+    _rowlocal_reward(u, "lateness")
